@@ -31,10 +31,11 @@ type Faults struct {
 	CancelBefore    bool   `json:"cancel_before_send,omitempty"`
 	SrvCancelStep   int    `json:"srv_cancel_step,omitempty"` // server ctx cancelled at the server task's k-th own step
 	RawRespFail     bool   `json:"raw_resp_fail,omitempty"`   // handler-supplied raw response body fails mid-copy
+	SrvCancelAtStart bool  `json:"srv_cancel_at_start,omitempty"` // request context already cancelled when ServeHTTP is entered
 }
 
 func (f Faults) Any() bool {
-	return f.ReqCutMode != 0 || f.RespCutMode != 0 || f.ReqReset || f.RespTruncate || f.Dup || f.Intermediary != 0 || f.WriterFail || f.CancelBefore || f.SrvCancelStep != 0 || f.RawRespFail
+	return f.ReqCutMode != 0 || f.RespCutMode != 0 || f.ReqReset || f.RespTruncate || f.Dup || f.Intermediary != 0 || f.WriterFail || f.CancelBefore || f.SrvCancelStep != 0 || f.RawRespFail || f.SrvCancelAtStart
 }
 
 // DataPreserving reports whether the plan contains only faults under which the property must hold unchanged.
@@ -285,6 +286,10 @@ func Serve(s *Sched, h http.Handler, c2s *Conn, d *Delivery, f Faults, rng *rand
 			}
 		}
 		defer func() { t.OnOwnStep = nil }()
+	}
+	if f.SrvCancelAtStart {
+		cancel()
+		s.Probes["server_ctx_cancelled_at_start"]++
 	}
 	req = req.WithContext(ctx)
 	req.RemoteAddr = "192.0.2.1:1234"
